@@ -47,6 +47,8 @@ def ev? : Sexp → Option Ev
   | .list [.atom "gc", i] => do pure (.gcDrop (← asNat? i))
   | .list [.atom "mut", i, .atom cls, .atom meth, bp, e] => do
       pure (.mut (← asNat? i) ⟨← guardOf cls meth, ← bool? bp, ← eff? e⟩)
+  | .list [.atom "mutp", i, .list path, .atom cls, .atom meth, bp, e] => do
+      pure (.mutPath (← asNat? i) (← strs? path) ⟨← guardOf cls meth, ← bool? bp, ← eff? e⟩)
   | .list [.atom "withlock", i] => do pure (.withLock (← asNat? i))
   | .list [.atom "withunlock", i] => do pure (.withUnlock (← asNat? i))
   | .list [.atom "exit"] => some .exitCtx
